@@ -4,6 +4,8 @@ import RactorModel.Lemmas.AdmissionIds
 import RactorModel.Lemmas.AdmissionQueue
 import RactorModel.Lemmas.AdmissionOracle
 import RactorModel.Model.Boxing
+import RactorModel.Lemmas.LifeC02
+import RactorModel.Lemmas.LifeWorld
 
 /-!
 # C02 — the mailbox delivers accepted messages once, in order
@@ -310,6 +312,75 @@ theorem wrong_kind_is_refused (t : Boxing.Target) (m : Boxing.MsgKind) :
   unfold Boxing.send
   constructor <;> intro h1 h2 <;> simp [h1, h2]
 
+/-! ## C02 at the level the `Life` engines observe (one mailbox, API-level sends, real handler entries)
+
+`Life.C02.ok tr` is acceptance of an actor's trace by `Life.C02.next` (`Model/Life.lean`): every
+`enter handle x` takes the *oldest* accepted, not yet handled message (so a refused send is never
+handled, nothing is handled twice, nothing is skipped, FIFO in the order the sends completed);
+a poll that leaves the loop listening leaves no accepted message outstanding (what the loop took
+out of the mailbox was handed to `handle`); nothing is handled after the actor's task ended. The
+driver model `life-c02` runs this automaton on the traces of the real runtime — Send actors,
+thread-local actors, and Send actors on the thread-local spawner through the blanket adapter. -/
+
+/-- **Life-level C02, all schedules**: for every actor and every sequence of single-actor ops
+(sends, self-sends, calls, polls, segments, stop / kill / drain / abort, supervision traffic …) the
+trace is accepted by the C02 automaton. -/
+theorem life_fifo_exactly_once (id : Nat) (ops : List Life.AOp) : Life.C02.ok (Life.trace id ops) = true := by
+  obtain ⟨s', h, _⟩ := Life.C02.run_sim ops (Life.Actor.init id) {} (Life.C02.inv_init id)
+  simp [Life.C02.ok, Life.trace, h, Except.isOk, Except.toBool]
+
+/-- The same for every actor of every run of the composed world (what the driver replays). -/
+theorem life_fifo_exactly_once_world (ops : List Life.Op) (h : ∀ op ∈ ops, op ≠ .case) (i : Nat) :
+    Life.C02.ok (Life.projEvs i (({} : Life.World).run ops).2) = true := by
+  obtain ⟨aops, e⟩ := Life.world_actor_run ops h i
+  have := life_fifo_exactly_once i aops
+  simp only [Life.trace, e] at this
+  exact this
+
+/-- What acceptance means, spelled out: along every run the sequence of handled messages is a
+prefix of the sequence of accepted messages (payloads in the order the sends returned `Ok`) —
+exactly once, in order, never a refused one. -/
+theorem life_handled_prefix_of_accepted (id : Nat) (ops : List Life.AOp) :
+    Life.C02.handled (Life.trace id ops) <+: Life.C02.accepted (Life.trace id ops) := by
+  obtain ⟨s', h, _⟩ := Life.C02.run_sim ops (Life.Actor.init id) {} (Life.C02.inv_init id)
+  have := Life.C02.accepts_queue _ _ _ h
+  exact ⟨s'.queue, by simpa [Life.trace] using this.symm⟩
+
+/-- …and whenever the actor sits idle after a poll, it is not a strict prefix: everything accepted
+so far has been handled (`P`: a loop left listening has an empty mailbox; the automaton's queue is
+the user part of the mailbox). -/
+theorem life_idle_means_all_handled (id : Nat) (ops : List Life.AOp)
+    (hidle : ((Life.Actor.init id).run (ops ++ [.poll])).1.phase = .idle) :
+    Life.C02.handled (Life.trace id (ops ++ [.poll])) = Life.C02.accepted (Life.trace id (ops ++ [.poll])) := by
+  obtain ⟨s1, h1, hinv1⟩ := Life.C02.run_sim ops (Life.Actor.init id) {} (Life.C02.inv_init id)
+  obtain ⟨s2, h2, _, hq2⟩ := Life.C02.step_poll _ s1 hinv1
+  have hrun := Life.run_append (Life.Actor.init id) ops [.poll]
+  have hacc : Life.accepts Life.C02.next {} (Life.trace id (ops ++ [.poll])) = .ok s2 := by
+    simp only [Life.trace, hrun, Life.Actor.run, List.append_nil]
+    rw [Life.accepts_append Life.C02.next _ h1]
+    exact h2
+  have hph : ((Life.Actor.init id).run ops).1.step .poll |>.1.phase = .idle := by
+    simpa [hrun, Life.Actor.run] using hidle
+  have := Life.C02.accepts_queue _ _ _ hacc
+  simpa [hq2 hph] using this.symm
+
+/-! Non-vacuity and rejection examples for the Life-level automaton. -/
+
+example : Life.C02.ok [.sendRet false 1 true, .sendRet false 2 true, .enter .handle (.msg 1),
+    .exit .handle .ok, .enter .handle (.msg 2)] = true := by decide
+-- out of order / skipped
+example : Life.C02.ok [.sendRet false 1 true, .sendRet false 2 true, .enter .handle (.msg 2)] = false := by decide
+-- handled twice
+example : Life.C02.ok [.sendRet false 1 true, .enter .handle (.msg 1), .exit .handle .ok,
+    .enter .handle (.msg 1)] = false := by decide
+-- a refused send is handled
+example : Life.C02.ok [.sendRet false 1 false, .enter .handle (.msg 1)] = false := by decide
+-- accepted, the loop polled and went back to listening, but the message was never handed to `handle`
+-- (what seeded/C02-6 does)
+example : Life.C02.ok [.exit .postStart .ok, .sendRet false 1 true, .polled] = false := by decide
+-- handled after the task ended
+example : Life.C02.ok [.sendRet false 1 true, .join .ok, .enter .handle (.msg 1)] = false := by decide
+
 end C02
 
 #print axioms C02.refused_send_changes_nothing
@@ -330,3 +401,7 @@ end C02
 #print axioms C02.oracle_holds_of_model
 #print axioms C02.src_send_steps
 #print axioms C02.src_port_drop
+#print axioms C02.life_fifo_exactly_once
+#print axioms C02.life_fifo_exactly_once_world
+#print axioms C02.life_handled_prefix_of_accepted
+#print axioms C02.life_idle_means_all_handled
